@@ -582,7 +582,7 @@ theorem execCmd_tracks : (c : Cmd) → Sub S (posCmd c) → Tracks S (execCmd g 
     split
     · exact Or.inr (hs.tail.left _ (evalInPos_mem g value ctx st))
     · rename_i sv st1 he
-      exact (Step.of_node (evalIn_node he)).trans (execCases_tracks cases sv hs.tail.right ctx st1)
+      exact (Step.of_node (evalIn_node he)).trans (execCases_tracks cases none (fun _ h => by cases h) sv hs.tail.right ctx st1)
   | .call _ name allData data params, hs => by
     rw [posCmd] at hs
     intro ctx st
@@ -660,9 +660,14 @@ theorem execConds_tracks : (cs : CondList) → Sub S (posConds cs) → Tracks S 
       split
       · exact e1.trans (walkBlockOf_tracks (execBody_tracks body hs.right.left) ctx st1)
       · exact e1.trans (execConds_tracks rest hs.right.right ctx st1)
-theorem execCases_tracks : (cs : CaseList) → (sv : Value) → Sub S (posCases cs) → Tracks S (execCases g esc call cs sv)
-  | .nil, _, _ => by intro ctx st; rw [execCases]; exact Or.inl rfl
-  | .cons _ values body rest, sv, hs => by
+theorem execCases_tracks : (cs : CaseList) → (dflt : Option Run) → (∀ d, dflt = some d → Tracks S d) → (sv : Value) →
+    Sub S (posCases cs) → Tracks S (execCases g esc call cs dflt sv)
+  | .nil, dflt, hd, _, _ => by
+    intro ctx st; rw [execCases]
+    cases dflt with
+    | none => exact Or.inl rfl
+    | some d => exact hd d rfl ctx st
+  | .cons _ values body rest, dflt, hd, sv, hs => by
     rw [posCases] at hs
     intro ctx st
     rw [execCases]
@@ -672,9 +677,8 @@ theorem execCases_tracks : (cs : CaseList) → (sv : Value) → Sub S (posCases 
       exact (Step.of_node (matchCase_node _ _ _ _ hm)).trans (walkBlockOf_tracks (execBody_tracks body hs.right.left) ctx st1)
     · rename_i st1 hm
       have e1 : Step S st st1 := Step.of_node (matchCase_node _ _ _ _ hm)
-      split
-      · exact e1.trans (walkBlockOf_tracks (execBody_tracks body hs.right.left) ctx st1)
-      · exact e1.trans (execCases_tracks rest sv hs.right.right ctx st1)
+      exact e1.trans (execCases_tracks rest _
+        (pickDefault_all (P := Tracks S) (walkBlockOf_tracks (execBody_tracks body hs.right.left)) hd) sv hs.right.right ctx st1)
 theorem execParams_tracks : (ps : ParamList) → Sub S (posParams ps) → (cd : Scope) → Tracks S (execParams g esc call ps cd)
   | .nil, _, _ => by intro ctx st; rw [execParams]; exact Or.inl rfl
   | .value _ key e rest, hs, cd => by
